@@ -12,7 +12,10 @@ fi
 git -C "$W" checkout -q --detach "$(git -C /repo rev-parse HEAD)" 2>/dev/null
 git -C "$W" checkout -q -- . ; git -C "$W" clean -fdq -e target
 git -C "$W" apply "$PATCH" || { echo "patch does not apply"; exit 3; }
-VERIF_REPO="$W" VERIF_SEED="$SEED" "$HERE/check" "$ID" "$TIER" 2>&1 | grep -E "^(VIOLATION|KNOWN-FINDING|INCONCLUSIVE|C[0-9]+ (quick|thorough)|  signature)" | head -${LINES_MAX:-12}
-rc=${PIPESTATUS[0]}
+LOG="$(mktemp /tmp/mw/try.XXXXXX)"
+VERIF_REPO="$W" VERIF_SEED="$SEED" "$HERE/check" "$ID" "$TIER" > "$LOG" 2>&1
+rc=$?
+grep -E "^(VIOLATION|KNOWN-FINDING|INCONCLUSIVE|C[0-9]+ (quick|thorough)|  signature)" "$LOG" | head -${LINES_MAX:-12}
+rm -f "$LOG"
 git -C "$W" checkout -q -- .
 exit $rc
